@@ -247,6 +247,8 @@ class SimpleARTMAP(BaseARTMAP):
         self.labels_ = y
         # init module A
         self.module_a.W = []
+        self.module_a.weight_sample_counter_ = []
+        self.module_a.sample_counter_ = 0
         self.module_a.labels_ = np.zeros((X.shape[0],), dtype=int)
 
         for _ in range(max_iter):
@@ -298,6 +300,8 @@ class SimpleARTMAP(BaseARTMAP):
         if not hasattr(self, "labels_"):
             self.labels_ = y
             self.module_a.W = []
+            self.module_a.weight_sample_counter_ = []
+            self.module_a.sample_counter_ = 0
             self.module_a.labels_ = np.zeros((X.shape[0],), dtype=int)
             j = 0
         else:
